@@ -179,6 +179,8 @@ def replay_program(item):
             pm.write_files(root, files0)
             status, detail = apply_action(root, tfile, act["name"], act["prefs"])
             out["counts"][status] = out["counts"].get(status, 0) + 1
+            ba = out.setdefault("by_action", {}).setdefault(act["name"], {})
+            ba[status] = ba.get(status, 0) + 1
             fails = []
             files1 = None
             if status == "crash":
